@@ -282,7 +282,22 @@ func H_C09_seq() {
 		ts := primitive.Timestamp{}
 		stream, err = engine.Watch(h, nil, nil, nil, &ts)
 	} else {
-		stream, err = engine.Watch(h, nil, resume, nil, nil)
+		switch vf.Choice("via", 3) {
+		case 0:
+			stream, err = engine.Watch(h, nil, resume, nil, nil)
+		case 1:
+			stream, err = engine.Watch(h, nil, nil, resume, nil)
+		case 2:
+			// startAt: the cluster time of the first event to deliver, or a time after the last event
+			var ts primitive.Timestamp
+			if start < len(oplog) {
+				ts = bsonkit.Get(oplog[start], "clusterTime").(primitive.Timestamp)
+			} else {
+				ts = bsonkit.Get(oplog[start-1], "clusterTime").(primitive.Timestamp)
+				ts.I++
+			}
+			stream, err = engine.Watch(h, nil, nil, nil, &ts)
+		}
 	}
 	vf.Assert(err == nil, "Watch failed")
 	// expected: the scope-filtered suffix; a drop of the watched collection / database ends the stream
